@@ -22,7 +22,7 @@ BLOCK = 400
 STREAM_ORDER = ['ops', 'wall']
 RULE = ('seeded sequences (<=40) of start/stop/speed=/time=/read/execute_once on a real SimulatedClock whose '
         'wall-time source is scripted by the simulator (increments drawn from {0,1/64,1/4,1,3,64,4096}, in mode 2 '
-        'also between the reads inside one operation); a second interpreter runs on a SynchronizedClock that follows the first and is stepped now and then, and a SynchronizedClock on that second interpreter must show its last step time; non-trivial = the run read the clock while it was running '
+        'also between the reads inside one operation); a second interpreter runs on a SynchronizedClock that follows the first and is stepped now and then, events (with and without delay) are queued on either interpreter between steps, and a SynchronizedClock on that second interpreter must show its last step time; non-trivial = the run read the clock while it was running '
         'after a speed change or an assignment and saw at least one rejected assignment or a speed-0 period; '
         'distinct = distinct operation sequence (kind+argument, mode)')
 COMPONENTS = {'real': ['sismic.clock.SimulatedClock', 'sismic.clock.SynchronizedClock', 'sismic.interpreter.Interpreter'],
@@ -94,7 +94,8 @@ def _set_arg(ops, t):
     return t - ops.pick([F(1, 64), F(1, 4)])
 
 
-OPS = [('read', 4), ('start', 2), ('stop', 2), ('speed', 2), ('set', 3), ('step', 2), ('fstep', 1)]
+OPS = [('read', 4), ('start', 2), ('stop', 2), ('speed', 2), ('set', 3), ('step', 2), ('fstep', 1), ('queue', 1)]
+DELAYS = [None, 0, 1, 5, 0.25]
 
 
 def _run_exact(res, ops, wall, tier):
@@ -189,6 +190,16 @@ def _run_exact(res, ops, wall, tier):
             if F(interp.time) != t or (ms is not None and F(ms.time) != t):
                 return res.fail('step-time', 'interpreter time %r / MacroStep.time %r for a step at clock %r'
                                 % (interp.time, ms and ms.time, float(t)), trace=trace)
+        elif op == 'queue':
+            # queueing (with or without a delay) is not a step: nobody's time moves
+            arg = ops.pick(DELAYS)
+            who = follower if ops.flag(1, 4) else interp
+            if arg is None:
+                who.queue('late')
+            else:
+                who.queue('late', delay=arg)
+            arg = F(arg or 0)
+            res.stats['events_queued_with_a_delay_between_steps'] += 1
         elif op == 'fstep':
             follower.queue('e')
             fms = follower.execute_once()
@@ -306,6 +317,14 @@ def _run_relaxed(res, ops, wall, tier):
             if ms is not None and ms.time != interp.time:
                 return res.fail('step-time', 'MacroStep.time %r != interpreter.time %r' % (ms.time, interp.time), trace=trace)
             last_read = max(last_read, F(interp.time))
+        elif op == 'queue':
+            arg = ops.pick(DELAYS)
+            who = follower if ops.flag(1, 4) else interp
+            if arg is None:
+                who.queue('late')
+            else:
+                who.queue('late', delay=arg)
+            arg = F(arg or 0)
         elif op == 'fstep':
             follower.queue('e')
             follower.execute_once()
